@@ -17,6 +17,30 @@ CHECKS = {
         "ref": "DESIGN.md §3.4, §4 C02",
         "note": "Trusted: TLC, fv/project.py:model_abs, the renderer in fv/drivers/c02.py. Inputs on which the code's own algorithm answers differently once a:b and b:a are identified are not judged; '-' applied to a chain without a term and effect sides that denote nothing are outside the domain. Open findings KF_C02_late_literal, KF_C02_mul_equal_models.",
     },
+    "C04": {
+        "technique": "TLA+ spec (Design.tla: cell-level meaning of labels, label order, slices) model checked with TLC on a small scope; every TLC-generated (frame, formula) case replayed into design_matrices and compared cell by cell; recorded builds on random frames judged by TLC (Design_Trace)",
+        "text": "TLC enumerates every frame of the small scope (3-4 rows, factors with up to 3 levels) x 14 formula shapes, checks the Abs design function's theorems and exports the complete expected design (labels, cells, slices); the real code is run on each and must agree exactly. Random worlds (3-30 rows, str / Categorical / ordered / integer-via-C columns, unequal level counts, numeric calls, interactions up to arity 3 in random factor order, group terms) are built by the real code and every recorded design is judged by TLC: each cell equals the meaning of its label, labels and columns agree in number and order, levels sorted or as declared, cartesian label order with the first factor slowest.",
+        "ref": "DESIGN.md §3.7, §4 C04",
+        "note": "Trusted: TLC, fv/design.py and fv/gen.py (materialisation of abstract frames, parsing of label strings with the generator's name tables). Integer-valued data only (exact products). Builds that raise are counted, not judged here.",
+    },
+    "C09": {
+        "technique": "TLA+ spec (Design.tla: UsedVars / Incomplete rows / policies) model checked with TLC; TLC-generated frames with missing cells replayed under the three policies; recorded builds on random frames with missing values judged by TLC, which computes the incomplete rows itself",
+        "text": "TLC proves on the small scope that drop equals the build on the pre-dropped frame, error refuses iff an incomplete row exists, pass keeps all rows with complete rows as under drop, and that missing values in unused columns change nothing; every case is replayed into design_matrices. Random worlds with 5-30% missing cells in used and unused columns (variables inside calls, C(), group terms, the response) are built under the three policies; TLC recomputes the incomplete rows from the used variables and judges the recorded matrices against the frame with exactly those rows removed, the refusal, and the NaN pattern.",
+        "ref": "DESIGN.md §3.7, §4 C09",
+        "note": "Trusted: as C04. Categorical NA under 'pass' is outside the domain. The used variables of a generated formula are the ones the generator wrote into its text.",
+    },
+    "C15": {
+        "technique": "TLA+ spec (Design.tla response meaning; Design_Trace judge with build / rows / refuse events) checked with TLC; small-scope cases replayed; recorded response forms judged by TLC",
+        "text": "Small-scope S->C incl. a categorical response; recorded builds with numeric / str / Categorical / ordered / call responses judged cell by cell; subset notation y[ident], y['quoted'], y[\"quoted\"] must be 1 exactly where y equals the level; prop/p/proportion with column or constant trials must give successes and trials and refuse invalid data; predictors must be identical under a different response (rows relation judged by TLC); multi-term responses must be refused; no response => no response matrix.",
+        "ref": "DESIGN.md §3.7, §4 C15",
+        "note": "Trusted: as C04; the label of a subset-notation response is taken from the formula text.",
+    },
+    "C17": {
+        "technique": "TLA+ container invariants (Design_MC ShapeOK; Design_Trace build and object clauses) checked by TLC on every matrix object of small-scope replays, random builds and evaluate_new_data chains",
+        "text": "Every matrix object produced by the small-scope replays, by random builds and by chains of evaluate_new_data (subsets, unseen groups in silent mode) is recorded; TLC checks that slices are contiguous from 0 in term order and cover all columns and that rows = retained observations; the harness-computed view agreement ([name] = slice, unknown name refused, as_dataframe / asarray / unpacking agree, unique column names, str()/repr() succeed and show the shape) is part of each event.",
+        "ref": "DESIGN.md §4 C17",
+        "note": "Trusted: fv/drivers/c17_objects.py:object_event and fv/gen.py:matrix_event compute the view-agreement booleans.",
+    },
 }
 
 NOT_YET = "check not built yet (work in progress; see DESIGN.md §9 build order)"
